@@ -42,6 +42,9 @@ structure Dir where
   mutations : Nat
   /-- number of live handles (Database / tx database / Keyspace) sharing the lock guard -/
   holders : Nat
+  /-- the live instance holds acknowledged journal bytes that are not yet written and synced
+      (manual journal persist, or writes since the last sync) -/
+  pendingJournal : Bool := false
   deriving Repr, DecidableEq
 
 def Dir.locked (d : Dir) : Bool := d.holders > 0
@@ -83,6 +86,17 @@ def openDbLateLock (d : Dir) : Dir × Except OpenErr Unit :=
       if d.locked then ({ d with mutations := d.mutations + 1 }, .error .locked)
       else ({ d with holders := 1, mutations := d.mutations + 1 }, .ok ())
   | none => openDb d
+
+/-- Dropping the last handle, as the directory states another opener can observe one after the other:
+    `Journal::drop` writes and syncs what is pending, then the lock guard goes (`DatabaseInner` drops
+    `supervisor` before `lock_file`).  `lockFirst` = the other order (seeded change C17-9). -/
+def dropLastStates (lockFirst : Bool) (d : Dir) : List Dir :=
+  if lockFirst then
+    [{ d with holders := 0 },
+     { d with holders := 0, pendingJournal := false, mutations := d.mutations + 1 }]
+  else
+    [{ d with pendingJournal := false, mutations := d.mutations + 1 },
+     { d with holders := 0, pendingJournal := false, mutations := d.mutations + 1 }]
 
 inductive HOp | open | clone | drop
   deriving Repr, DecidableEq
